@@ -54,15 +54,17 @@ type faultMode struct {
 
 func ifaceOptions(op string, after bool) []string {
 	switch op {
-	case "WriteOps", "ReadOps", "Logs", "r.GetLatest":
+	case "WriteOps", "ReadOps", "Logs":
 		return []string{"ok", "err"}
+	case "r.GetLatest":
+		return []string{"ok", "err", "err-sticky"}
 	case "w.GetLatest":
-		return []string{"ok", "err", "unavailable", "internal"}
+		return []string{"ok", "err", "unavailable", "internal", "err-sticky"}
 	case "w.Set":
 		if after {
-			return []string{"ok", "err", "err-after-effect"}
+			return []string{"ok", "err", "err-after-effect", "err-sticky"}
 		}
-		return []string{"ok", "err"}
+		return []string{"ok", "err", "err-sticky"}
 	case "w.Close":
 		return []string{"ok", "err"}
 	}
@@ -71,7 +73,12 @@ func ifaceOptions(op string, after bool) []string {
 
 func driverOptions(op string, after bool) []string {
 	switch op {
-	case "begin", "prepare", "query", "next", "exec", "rollback":
+	case "query", "next", "exec":
+		// err-sticky: this kind of call keeps failing until the current
+		// operation is over (a store that is locked / down for a while):
+		// one deviation, however often the code retries.
+		return []string{"ok", "err", "err-sticky"}
+	case "begin", "prepare", "rollback":
 		return []string{"ok", "err"}
 	case "commit":
 		if after {
@@ -114,10 +121,11 @@ func timed(f func()) bool {
 // C07 owns all of them; C03 has its own restricted oracle (c03only).
 var faultViews = map[string][]string{
 	"C01": {"split-view-under-fault"},
-	"C04": {"handed-out-under-fault"},
+	"C04": {"handed-out-under-fault", "false-success"},
 	"C06": {"false-success", "state-changed-on-error", "accepted-under-fault", "split-view-under-fault"},
 	"C08": {"suffix-growth-refused", "blocked", "wedge"},
 	"C09": {"fault-free-mismatch", "suffix-fork-not-refused", "suffix-growth-refused", "wrong-verdict-under-fault", "accepted-under-fault"},
+	"C12": {"other-log-changed", "blocked", "wedge"},
 	"C16": {"read-wrong-bytes", "read-logs-wrong", "read-fault-reported-as-not-found", "suffix-read", "read-failed-without-fault"},
 }
 
@@ -158,6 +166,7 @@ func faultExec(run *ev.Run, view string, u *uni.U, gen *wh.CPGen, logs []wh.LogC
 	}
 	active := false
 	afterEffect := false // an "after effect" answer was given in the current op
+	sticky := map[string]bool{} // call kinds that keep failing until the current op ends
 	var lw *lspwrap.P
 	cfg := wh.Config{Store: store, Logs: logs}
 	if mode.Level == "iface" {
@@ -165,6 +174,9 @@ func faultExec(run *ev.Run, view string, u *uni.U, gen *wh.CPGen, logs []wh.LogC
 			lw = lspwrap.New(p, lspwrap.Hooks{Fault: func(op, id string) (error, bool) {
 				if !active {
 					return nil, false
+				}
+				if sticky[op] {
+					return errInjected, false
 				}
 				opts := ifaceOptions(op, mode.AfterEffect)
 				if len(opts) == 1 {
@@ -177,6 +189,9 @@ func faultExec(run *ev.Run, view string, u *uni.U, gen *wh.CPGen, logs []wh.LogC
 				case "err-after-effect":
 					afterEffect = true
 					return errInjected, true
+				case "err-sticky":
+					sticky[op] = true
+					return errInjected, false
 				}
 				return faultErr(k), false
 			}})
@@ -195,6 +210,9 @@ func faultExec(run *ev.Run, view string, u *uni.U, gen *wh.CPGen, logs []wh.LogC
 			if !active || phase != "pre" {
 				return drvwrap.Action{}
 			}
+			if sticky["drv:"+op] {
+				return drvwrap.Action{Err: drvwrap.ErrInjected}
+			}
 			opts := driverOptions(op, mode.AfterEffect)
 			if len(opts) == 1 {
 				return drvwrap.Action{}
@@ -202,6 +220,9 @@ func faultExec(run *ev.Run, view string, u *uni.U, gen *wh.CPGen, logs []wh.LogC
 			switch opts[c.Choose(len(opts), "drv:"+op)] {
 			case "ok":
 				return drvwrap.Action{}
+			case "err-sticky":
+				sticky["drv:"+op] = true
+				return drvwrap.Action{Err: drvwrap.ErrInjected}
 			case "err-committed":
 				afterEffect = true
 				return drvwrap.Action{Err: drvwrap.ErrInjected, After: true}
@@ -273,6 +294,7 @@ func faultExec(run *ev.Run, view string, u *uni.U, gen *wh.CPGen, logs []wh.LogC
 		pointsBefore := len(c.Points)
 		devBefore := c.Deviations()
 		afterEffect = false
+		sticky = map[string]bool{}
 		if op.Read || op.Logs {
 			pre := e.Snap()
 			active = true
@@ -646,6 +668,6 @@ func runFaults(run *ev.Run, prop, tier string, c03only bool) {
 		return
 	}
 	if !c03only {
-		run.Set("rule", "for each of 8 histories (first use; a first use that is refused only after the store was opened for writing, then ordinary requests; growth/refresh/growth; refresh first; every refused kind then growth; a fork submitted as first use over an existing state; growth then a fork from the same old size; two logs) x {in-memory, SQLite single connection} x {interface-level faults on WriteOps / GetLatest (plain, gRPC Unavailable, gRPC Internal) / Set (before effect, after effect) / Close / ReadOps / Logs; SQL-driver-level faults on begin, prepare, query, next, exec, commit (rolled back / committed), rollback}: every placement of up to <deviation_bound> faults (positions discovered dynamically, deviation-bounded DFS), each execution followed by a fault-free suffix (read, refused fork, honest growth). distinct_nontrivial = distinct (store, level, history, fault placement) with at least one fault")
+		run.Set("rule", "for each of 8 histories (first use; a first use that is refused only after the store was opened for writing, then ordinary requests; growth/refresh/growth; refresh first; every refused kind then growth; a fork submitted as first use over an existing state; growth then a fork from the same old size; two logs) x {in-memory, SQLite single connection} x {interface-level faults on WriteOps / GetLatest (plain, gRPC Unavailable, gRPC Internal) / Set (before effect, after effect) / Close / ReadOps / Logs; SQL-driver-level faults on begin, prepare, query, next, exec, commit (rolled back / committed), rollback; a fault may be a single failing call or the same kind of call failing for the rest of the operation (sticky: a store that stays locked however often the code retries)}: every placement of up to <deviation_bound> faults (positions discovered dynamically, deviation-bounded DFS), each execution followed by a fault-free suffix (read, refused fork, honest growth). distinct_nontrivial = distinct (store, level, history, fault placement) with at least one fault")
 	}
 }
